@@ -36,7 +36,17 @@ INF, NAN = 7, 99
 U24 = 2.0**-24
 ES_INVS_HIST = ["TypeOK", "IncumbentIsBestSoFar", "IncumbentNeverNaN", "IncumbentLatestOnTies", "UpdateEveryN"]
 ES_INVS_SEL = ["TypeOK", "IncumbentNeverNaN", "UpdateEveryN", "MeanIsWeightedBestMu", "NegativeUpdateFromWorstMu", "FreshPopulationUnevaluated"]
-K_NEGVAR = "cmaes:active_update:negative_variance"
+K_NEGVAR = "cmaes:active_update:negative_variance"  # the recorded finding, see negvar_key()
+
+
+def negvar_key(ad, neg):
+    """Key of a non-positive variance after an ACTIVE update; a key names the failing input.
+    The recorded finding is exactly: 1-D z-lattice population (mean + z_k * sigma, initial
+    variance 1) whose candidate at z = -5 (slot 0) is in the negative update, i.e. a candidate
+    >= 4.5 sigma from the mean ranked among the worst.  Every other occurrence gets its own key."""
+    if ad.mode == "zlat" and ad.var0 == 1.0 and 0 in list(neg):
+        return K_NEGVAR
+    return f"{K_NEGVAR}:{ad.mode}-d{ad.d}-var{ad.var0:g}"
 
 
 # ------------------------------------------------------------------ helpers
@@ -121,14 +131,14 @@ class ES:
 
     ZS = [-5.0, 0.5, 2.0, -1.0, 4.0, -3.0]
 
-    def __init__(self, n, d, active, maximize, mode, seed, bounds=None, cov0=None, facts=None):
+    def __init__(self, n, d, active, maximize, mode, seed, bounds=None, cov0=None, var0=None, facts=None):
         import jax
         import jax.numpy as jnp
 
         from rl_blox.algorithm import cmaes as C
 
         self.C, self.jnp = C, jnp
-        self.params = dict(n=n, d=d, active=active, maximize=maximize, mode=mode, seed=seed, bounds=bounds, cov0=cov0)
+        self.params = dict(n=n, d=d, active=active, maximize=maximize, mode=mode, seed=seed, bounds=bounds, cov0=cov0, var0=var0)
         self.n, self.mode, self.active, self.maximize = n, mode, active, maximize
         if mode == "coded":
             d = n + 1
@@ -145,8 +155,10 @@ class ES:
             cov = np.eye(d, dtype=np.float32) + 0.25 * (np.ones((d, d), dtype=np.float32) - np.eye(d, dtype=np.float32))
         else:
             cov = None
+        self.var0 = float(var0) if var0 is not None else (1.0 if mode != "real" else 0.5)  # initial variance sigma^2
+        self.negkey = None  # key of a non-positive variance produced by an earlier update of this run
         init = np.zeros(d, dtype=np.float32) if mode != "real" else np.asarray([0.25, -0.5, 1.0][:d], dtype=np.float32)
-        self.st = C.CMAESState.create(key=jax.random.key(seed), initial_params=jnp.asarray(init), variance=1.0 if mode != "real" else 0.5, covariance=cov)
+        self.st = C.CMAESState.create(key=jax.random.key(seed), initial_params=jnp.asarray(init), variance=self.var0, covariance=cov)
         self.init_mean = np.asarray(self.st.mean).copy()
         self.bounds = b
         self.facts = facts if facts is not None else []
@@ -173,7 +185,7 @@ class ES:
             c = float(np.asarray(self.st.cov)[0, 0])
             v = float(self.st.var)
             if not (c > 0 and v > 0):
-                raise Mismatch(f"variance of the search distribution is {v} * {c}: nothing can be sampled", key=K_NEGVAR if self.active else "cmaes:update:negative_variance")
+                raise Mismatch(f"variance of the search distribution is {v} * {c}: nothing can be sampled", key=self.negkey or "cmaes:update:negative_variance")
             sd = np.float32(math.sqrt(v * c))
             samples = jnp.asarray((np.asarray(self.st.mean, dtype=np.float32)[None, :] + np.asarray(self.ZS[: self.n], dtype=np.float32)[:, None] * sd).astype(np.float32))
         s = np.asarray(samples)
@@ -183,7 +195,7 @@ class ES:
             dg = np.diag(np.asarray(self.st.cov))
             raise Mismatch(
                 f"sample_population returns non-finite candidates (cov diagonal {dg}, var {float(self.st.var)})",
-                key=K_NEGVAR if (self.active and (dg <= 0).any()) else "cmaes:sample_population:nonfinite",
+                key=self.negkey or "cmaes:sample_population:nonfinite",
             )
         if self.bounds is not None and not ((s >= self.bounds[:, 0]).all() and (s <= self.bounds[:, 1]).all()):
             raise Mismatch("sampled candidate outside config.bounds", key="cmaes:sample_population:bounds")
@@ -358,6 +370,9 @@ def es_step(ad: ES, op, args, exp, pre, post, enc=0):
                 raise Mismatch(f"covariance shrinks along slots {down}, the model's negative update uses {exp['neg']} (active={ad.active})", key="cmaes:update:negative_selection")
         f = update_fact(ad, var_pre, exp["gen"])
         f["mean"] = how
+        if ad.active and not (np.diag(np.asarray(ad.st.cov)) > 0).all():
+            ad.negkey = negvar_key(ad, exp["neg"])
+        f["negkey"] = ad.negkey or negvar_key(ad, exp["neg"])  # label only; the predicate is TLC's
         ad.facts.append(f)
     elif op == "Sample":
         ad.pop = ad._population()
@@ -461,23 +476,24 @@ def es_plan(quick):
     Z = dict(mode="zlat", d=1)
     if quick:
         return [
-            ((2, 3, "FeedAll", False, True), [R(1), Z]),
-            ((3, 2, "FeedMid", True, False), [R(2), Z]),
-            ((4, 2, "FeedSmall", False, True), [R(3), Cd]),
+            ((2, 3, "FeedAll", False, True), [R(1), Z, R(3, var0=25, s=1)]),
+            ((3, 2, "FeedMid", True, False), [R(2, var0=4), Z]),
+            ((4, 2, "FeedSmall", False, True), [R(3, var0=25), Cd]),
             ((5, 2, "FeedInfNan", True, False), [R(1, bounds=0.5), Cd]),
-            ((6, 2, "FeedTies", True, True), [R(2, cov0="full"), Cd, Z]),
+            ((6, 2, "FeedTies", True, True), [R(2, cov0="full"), Cd, Z, R(1, var0=4, s=1), R(2, var0=25, s=2), R(3, var0=4, s=3)]),
         ]
     return [
         ((2, 3, "FeedAll", False, False), [R(1, cov0="diag"), R(2, cov0="full"), R(3), Cd, Z, R(2, bounds=0.5)]),
-        ((2, 3, "FeedAll", True, True), [R(1), R(2), R(3, cov0="diag"), Cd, Z]),
-        ((3, 3, "FeedMid", False, True), [R(1), R(2, cov0="full"), Cd, Z]),
-        ((3, 2, "FeedAll", True, False), [R(3), R(1, bounds=0.5), Cd, Z]),
-        ((4, 2, "FeedMid", False, True), [R(2), Cd, Z]),
-        ((4, 2, "FeedSmall", True, False), [R(3, cov0="diag"), R(1), Cd, Z]),
+        ((2, 3, "FeedAll", True, True), [R(1), R(2), R(3, cov0="diag"), Cd, Z] + [R(1 + k % 3, var0=(4, 25)[k % 2], s=k) for k in range(1, 7)]),
+        ((3, 3, "FeedMid", False, True), [R(1), R(2, cov0="full"), Cd, Z, R(3, var0=25, s=1), R(2, var0=4, s=2)]),
+        ((3, 2, "FeedAll", True, False), [R(3), R(1, bounds=0.5), Cd, Z, R(2, var0=25, s=1)]),
+        ((4, 2, "FeedMid", False, True), [R(2), Cd, Z, R(3, var0=25, s=1)]),
+        ((4, 2, "FeedSmall", True, False), [R(3, cov0="diag"), R(1), Cd, Z, R(1, var0=4, s=1)]),
         ((5, 2, "FeedSmall", False, False), [R(2), Cd]),
-        ((5, 2, "FeedInfNan", True, True), [R(1, bounds=0.5), R(3), Cd, Z]),
-        ((6, 2, "FeedInfNan", False, True), [R(2, cov0="full"), Cd, Z]),
-        ((6, 3, "FeedTies", True, False), [R(3), R(1), Cd, Z]),
+        ((5, 2, "FeedInfNan", True, True), [R(1, bounds=0.5), R(3), Cd, Z, R(2, var0=25, s=1), R(1, var0=25, s=2)]),
+        ((6, 2, "FeedInfNan", False, True), [R(2, cov0="full"), Cd, Z, R(3, var0=4, s=1)]),
+        ((6, 3, "FeedTies", True, False), [R(3), R(1), Cd, Z] + [R(1 + k % 3, var0=(25, 4)[k % 2], s=k) for k in range(1, 4)]),
+        ((6, 3, "FeedTies", False, True), [R(1 + k % 3, var0=(25, 4)[k % 2], s=k) for k in range(6)]),
     ]
 
 
@@ -531,8 +547,10 @@ def run_cmaes(rep, quick):
         if not G.roots():
             raise tlc.MachineryError("empty CMA-ES graph")
         for a in adapters:
-            params = dict(n=n, active=act, maximize=mx, seed=(rep.seed * 7919 + 13 * n + 1) % 2**31, **a)
-            res = es_cover(rep, G, params, facts, f"N={n} {a['mode']} d={a['d']} active={act} maximize={mx}")
+            a = dict(a)
+            s_off = a.pop("s", 0)  # further seeds derived from rep.seed
+            params = dict(n=n, active=act, maximize=mx, seed=(rep.seed * 7919 + 13 * n + 1 + 104729 * s_off) % 2**31, **a)
+            res = es_cover(rep, G, params, facts, f"N={n} {a['mode']} d={a['d']} var0={a.get('var0', '-')} seed+{s_off} active={act} maximize={mx}")
             edges += res["edges_tested"]
         # non-trivial: a Tell that meets an evaluated incumbent or an Update, counted once per graph
         for key, es in G.out.items():
@@ -555,7 +573,7 @@ def run_cmaes(rep, quick):
         raise tlc.MachineryError("binding canary: corrupted incumbent id not noticed by the replay")
 
     # ---- numeric predicates: TLC judges the logged facts
-    slim = [{k: v for k, v in f.items() if k not in ("path", "params")} for f in facts]
+    slim = [{k: v for k, v in f.items() if k not in ("path", "params", "negkey")} for f in facts]
     res, failed = judge_facts(slim, tag="esfacts")
     rep.add_tlc(res, f"OptimisersFacts: {n_weight} weight facts, {len(facts) - n_weight} update facts")
     for idx, preds in failed:
@@ -564,7 +582,7 @@ def run_cmaes(rep, quick):
             if f["kind"] == "weights":
                 rep.violation(f"cmaes:weights:{pname}", f"CMAESConfig.create(n_samples_per_update={f['n']}): weights violate {pname}", {"kind": "weights", "fact": f})
             elif pname == "VariancesPositive" and f["active"]:
-                rep.violation(K_NEGVAR, f"active update (N={f['n']}, d={f['d']}, {f['mode']} population, generation {f['gen']}): smallest covariance diagonal entry is not positive", {"kind": "es-fact", "fact": f})
+                rep.violation(f["negkey"], f"active update (N={f['n']}, d={f['d']}, {f['mode']} population, initial variance {f['params'].get('var0')}, generation {f['gen']}): smallest covariance diagonal entry is not positive", {"kind": "es-fact", "fact": f})
             else:
                 rep.violation(f"cmaes:update:{pname}", f"update_search_distribution (N={f['n']}, d={f['d']}, active={f['active']}, {f['mode']}): {pname} fails", {"kind": "es-fact", "fact": f})
     # fact canary
@@ -1439,7 +1457,7 @@ def replay(path, rep):
         except Exception as ex:  # noqa: BLE001
             return fail(f"exception {type(ex).__name__}: {ex}")
         if facts:
-            _, failed = judge_facts([{k: v for k, v in facts[-1].items() if k not in ("path", "params")}])
+            _, failed = judge_facts([{k: v for k, v in facts[-1].items() if k not in ("path", "params", "negkey")}])
             if failed:
                 return fail(f"OptimisersFacts: {failed[0][1]} fail for {dict((k, v) for k, v in facts[-1].items() if k not in ('path', 'params'))}")
         return 0
